@@ -138,7 +138,7 @@ PROPS['C02'] = dict(
          'fragments (conservative capacity) must be written at the peer exactly once, in order, within 5 virtual s; or '
          '(b) fault phase of 1..40 virtual s (drop/dup/delay/black-out, optionally one direction), 15 s settling on a clean '
          'path, then 12 fresh packets each way of which the last 4 are judged: each delivered at least once, in order, within 10 s; neither program may exit; '
-         'in one such case of three an application keeps offering 2..8 packets per second on the client tun device throughout (class busy-upstream-stream). '
+         'in one such case of three an application keeps offering 2..8 packets per second on the client tun device, the server tun device or both throughout (classes busy-*). '
          'non-trivial iff (a) >=1 multi-fragment delivery and >=1 idle gap > 4.5 s, (b) faults hit and >=6 deliveries',
     engine_text='rapidcheck over choice tapes; simnet (virtual clock owned by the harness turns liveness into bounded-horizon safety)',
     bounds='<= 40 offers, <= 40 virtual s of faults; time bounds are in virtual time',
